@@ -211,8 +211,10 @@ Clauses(E) ==
     identity |-> \/ ~Ok \/ E.exc \/ E.how \in {"pure", "drop"}
                  \/ IF E.fresh THEN ObsOid(tgt) \notin LiveOids ELSE ObsOid(tgt) = pool[tgt].oid,
     noshare  |-> T.sharing \/ Ev.sh = <<>>,
-    wf       |-> \/ ~Ok \/ ~shapeOK \/ E.exc \/ E.how \in {"pure", "drop"} \/ overBudget
-                 \/ WF(ObsC(tgt), E.d),
+    wf       |-> (* bookkeeping invariants of the target and of every other slot that changed *)
+                 /\ \/ ~Ok \/ ~shapeOK \/ E.exc \/ E.how \in {"pure", "drop"} \/ overBudget
+                    \/ WF(ObsC(tgt), E.d)
+                 /\ \A s \in changedOthers : (pool[s].live /\ ShapeOK(ObsC(s), pool[s].d)) => WF(ObsC(s), pool[s].d),
     flags    |-> \/ ~Ok
                  \/ CASE Ev.op = "FillNumpy" -> Ev.inputs_unchanged
                       [] Ev.op = "Reload" -> Ev.strict /\ Ev.fixpoint
